@@ -8,6 +8,15 @@ DEC_EDGES = (0.15, 0.45, 0.9, 1.2, 1.9)
 DEC_DUR = (0.1, 0.3, 0.7, 1.7)
 # ulp-neighbour grid: pairs of floats one ulp apart (0.1+0.2 vs 0.3, 0.1+0.7 vs 0.8) - near-coincidences that are not coincidences
 ULP = (0.1, 0.3, 0.1 + 0.2, 0.1 + 0.7, 0.8, 1.3)
+
+
+def ulp_spans():
+    """(lo, hi, grid points inside) for the ulp grid: the whole grid, and spans whose end / start has its one-ulp neighbour INSIDE the span
+    (0.7999999999999999 < 0.8, 0.3 < 0.30000000000000004) - an argument one ulp inside the span's end is inside"""
+    u = tuple(sorted(ULP))
+    return [(lo, hi, tuple(x for x in u if lo <= x <= hi)) for lo, hi in ((u[0], u[-1]), (u[0], u[4]), (u[1], u[-1]), (u[1], u[4]))]
+
+
 # far-from-zero grid: dyadic offsets from 2**40 (~1.1e12 s), all exactly representable, so the exact oracle applies bit for bit.
 # At this magnitude a RELATIVE tolerance is a real duration: math.isclose's default 1e-9 is ~1100 s (all grid values are
 # "close" to each other), praatio's 1e-14 is ~0.011 s (BIG[0] and BIG[1], 2**-7 = 7.8 ms apart, are "close"; the others are not).
